@@ -1000,6 +1000,176 @@ def run_e2e(fl, capy, drv, nprog, per):
 
 # --------------------------------------------------------------------------- entry points
 
+
+# --------------------------------------------------------------------------- weak-literal bodies in typed contexts
+WL_PRELUDE = """putchar :: (c: u8) -> i32 extern;
+wpd :: (x: u64) { if x >= 10 { wpd(x / 10); } putchar(u8.(48 + x % 10)); }
+wpi :: (x: i64) { if x < 0 { putchar(45); wpd(u64.(0 - x)); } else { wpd(u64.(x)); } }
+sp :: () { putchar(32); }
+nl :: () { putchar(10); }
+WEr :: enum { X, Y: i32 };
+"""
+WL_FLOATS = {"f64": ["1.0 / 10.0", "3.141592653589793", "2.0 / 3.0", "1.0e300 / 3.0", "0.1 + 0.2", "-1.0 / 7.0", "16777217.0"],
+             "f32": ["1.0 / 10.0", "0.1 + 0.2", "1.5 * 2.25", "-2.0 / 3.0"]}
+WL_CONTEXTS = ["plain", "opt", "err", "struct-field", "opt-struct-field", "array-elem", "fn-arg", "opt-fn-arg",
+               "return", "opt-return", "err-return", "enum-payload", "assign", "opt-assign"]
+
+
+def wl_int_exprs(rng, name):
+    """[(weak-literal expression text, its value)] for integer type `name`: only untyped literals and arithmetic
+    on them, every intermediate within the type's range; includes negatives and magnitudes beyond 32 bits."""
+    w, sg = INTINFO[name]
+    lo, hi = (-(1 << (w - 1)), (1 << (w - 1)) - 1) if sg else (0, (1 << w) - 1)
+    vals = [rng.range(0, min(hi, 100)), hi, hi - rng.range(0, min(hi, 1000)), rng.range(0, hi)]
+    if w >= 32:
+        vals += [min(hi, (1 << 31) + rng.range(0, 1 << 20)), min(hi, 3000000000)]
+    if w >= 64:
+        vals += [(1 << 32) + rng.range(0, 1 << 30), min(hi, (1 << 40) * rng.range(1, 1000)), hi - rng.range(0, 1 << 33)]
+    if sg:
+        vals += [-rng.range(1, min(hi, 100)), -rng.range(1, hi), -hi]
+        if w >= 64:
+            vals += [-((1 << 31) + rng.range(1, 1 << 20)), -((1 << 33) + rng.range(0, 1 << 40))]
+    out = []
+    for z in vals:
+        form = rng.below(4)
+        lit = lambda q: str(q) if q >= 0 else "-%d" % -q
+        if form == 0 or (z < 0 and form == 3):
+            out.append((lit(z), z))
+        elif form == 1:
+            a = rng.range(0, abs(z)) if z >= 0 else -rng.range(0, -z)
+            out.append(("%s + %s" % (lit(a), lit(z - a)) if z - a >= 0 else "%s - %d" % (lit(a), a - z), z))
+        elif form == 2:
+            b = rng.range(0, min(hi, 1000))
+            if lo <= z + b <= hi and z + b >= 0:
+                out.append(("%d - %d" % (z + b, b), z))
+            else:
+                out.append((lit(z), z))
+        else:
+            f = next((d for d in (65536, 4096, 256, 100, 16, 7, 3, 2) if z % d == 0 and z >= d), 1)
+            out.append(("%d * %d" % (z // f, f) if f > 1 else lit(z), z))
+    # the demonstration shapes
+    if w >= 64:
+        out.append(("65536 * 65536", 1 << 32))
+    if sg:
+        out.append(("-5", -5))
+    return out
+
+
+def wl_case(idx, ctx, tname, expr):
+    """(declarations, statements of main) printing the comptime copy and the run-time copy of `expr` in context `ctx`."""
+    isf = tname in ("f32", "f64")
+    T = tname
+
+    def pr(e):
+        if isf:
+            return "wpi(i64.(%s * %s));" % (e, "1000000000000.0" if T == "f64" else "100000.0")
+        w, sg = INTINFO[T]
+        return ("wpi(i64.(%s));" % e) if sg else ("wpd(u64.(%s));" % e)
+    decls, body = [], []
+    for tag, blk in (("c", "comptime { %s }" % expr), ("r", "{ %s }" % expr)):
+        n = "w%d%s" % (idx, tag)
+        if ctx == "plain":
+            body += ["%s : %s = %s;" % (n, T, blk), pr(n)]
+        elif ctx == "opt":
+            body += ["%s : ?%s = %s;" % (n, T, blk), pr("#unwrap(%s, %s)" % (n, T))]
+        elif ctx == "err":
+            body += ["%s : WEr!%s = %s;" % (n, T, blk), pr("#unwrap(%s, %s)" % (n, T))]
+        elif ctx == "struct-field":
+            decls.append("WS%d%s :: struct { a: u8, f: %s };" % (idx, tag, T))
+            body += ["%s := WS%d%s.{ a = 1, f = %s };" % (n, idx, tag, blk), pr(n + ".f")]
+        elif ctx == "opt-struct-field":
+            decls.append("WS%d%s :: struct { a: u8, f: ?%s };" % (idx, tag, T))
+            body += ["%s := WS%d%s.{ a = 1, f = %s };" % (n, idx, tag, blk), pr("#unwrap(%s.f, %s)" % (n, T))]
+        elif ctx == "array-elem":
+            body += ["%s := %s.[%s, %s];" % (n, T, blk, blk), pr(n + "[1]")]
+        elif ctx == "fn-arg":
+            decls.append("wf%d%s :: (x: %s) -> %s { x }" % (idx, tag, T, T))
+            body += [pr("wf%d%s(%s)" % (idx, tag, blk))]
+        elif ctx == "opt-fn-arg":
+            decls.append("wf%d%s :: (x: ?%s) -> %s { #unwrap(x, %s) }" % (idx, tag, T, T, T))
+            body += [pr("wf%d%s(%s)" % (idx, tag, blk))]
+        elif ctx == "return":
+            decls.append("wf%d%s :: () -> %s { %s }" % (idx, tag, T, blk))
+            body += [pr("wf%d%s()" % (idx, tag))]
+        elif ctx == "opt-return":
+            decls.append("wf%d%s :: () -> ?%s { %s }" % (idx, tag, T, blk))
+            body += ["%s := wf%d%s();" % (n, idx, tag), pr("#unwrap(%s, %s)" % (n, T))]
+        elif ctx == "err-return":
+            decls.append("wf%d%s :: () -> WEr!%s { %s }" % (idx, tag, T, blk))
+            body += ["%s := wf%d%s();" % (n, idx, tag), pr("#unwrap(%s, %s)" % (n, T))]
+        elif ctx == "enum-payload":
+            decls.append("WE%d%s :: enum { V0, V1: %s };" % (idx, tag, T))
+            body += ["%s : WE%d%s = WE%d%s.V1.(%s);" % (n, idx, tag, idx, tag, blk),
+                     pr("%s.(#unwrap(%s, WE%d%s.V1))" % (T, n, idx, tag))]
+        elif ctx == "assign":
+            body += ["%s : %s = 0;" % (n, T) if not isf else "%s : %s = 0.0;" % (n, T), "%s = %s;" % (n, blk), pr(n)]
+        elif ctx == "opt-assign":
+            body += ["%s : ?%s = nil;" % (n, T), "%s = %s;" % (n, blk), pr("#unwrap(%s, %s)" % (n, T))]
+        body.append("sp();" if tag == "c" else "nl();")
+    return decls, body
+
+
+def run_weak_literals(fl, capy, nprog, per):
+    """Comptime blocks whose body is made only of untyped literals, in every expected-type context, next to the same
+    block evaluated at run time in the same context.  Oracle 1: the two printed values are equal.  Oracle 2 (integers):
+    both equal the value of the expression at the type the context gives it (python mirror of the typing rule "a weak
+    literal body is evaluated at the type its context demands"; the Coq model starts from the value the body yields)."""
+    v = fl.v
+    rng = fl.rng.fork("weak-literals")
+    progs = []
+    for pi in range(nprog):
+        r = rng.fork(str(pi))
+        cases = []
+        decls, body = [WL_PRELUDE], []
+        for k in range(per):
+            ctx = WL_CONTEXTS[(pi * per + k) % len(WL_CONTEXTS)]
+            if r.chance(1, 5):
+                tname = r.choice(["f64", "f64", "f32"])
+                expr, val = r.choice(WL_FLOATS[tname]), None
+            else:
+                tname = r.choice([n for n, _, _ in INTS])
+                expr, val = r.choice(wl_int_exprs(r, tname))
+            d, b = wl_case(k, ctx, tname, expr)
+            decls += d
+            body += b
+            cases.append((ctx, tname, expr, val))
+        src = "\n".join(decls) + "\nmain :: () {\n" + "\n".join("    " + l for l in body) + "\n}\n"
+        progs.append((src, cases))
+    results = C.parallel_map(lambda pc: run_program(capy, pc[0]), progs)
+    ncase = diffs = 0
+    first = None
+    hist = {}
+    for (src, cases), res in zip(progs, results):
+        if res.get("build_failed"):
+            cls = "weak-literal-comptime:compiler-panic" if res.get("panic") else "weak-literal-comptime:rejected"
+            v.failing(cls, {"key": "wl:" + C.sha(src), "stream": "weak literals", "source": src,
+                            "build_output": clean_build_out(res["build_out"])})
+            continue
+        lines = (res["out"] or "").split("\n")
+        for k, (ctx, tname, expr, val) in enumerate(cases):
+            ncase += 1
+            hist[ctx] = hist.get(ctx, 0) + 1
+            got = lines[k].split(" ") if k < len(lines) else ["<missing>", "<missing>"]
+            ct, rt = (got + ["<missing>"])[:2]
+            want = None if val is None else str(val)
+            if ct != rt or (want is not None and (ct != want or rt != want)):
+                which = "comptime" if (ct != rt and (want is None or rt == want)) else ("run-time" if ct == want else "both")
+                payload = {"key": "wl:%s:%s:%s" % (ctx, tname, expr), "stream": "weak literals", "context": ctx, "type": tname,
+                           "expression": expr, "comptime_copy_prints": ct, "run_time_copy_prints": rt,
+                           "value_at_context_type": want, "wrong_copy": which, "source": src, "case_index": k}
+                if which == "comptime":
+                    v.failing("comptime-weak-literal-body-differs:%s" % ("optional-or-wrapper" if ctx.startswith(("opt", "err")) or ctx == "enum-payload" else "plain"), payload)
+                else:
+                    v.failing("weak-literal-value-wrong-at-run-time:%s" % tname, payload)
+                diffs += 1
+                first = first or {k2: payload[k2] for k2 in payload if k2 != "source"}
+    fl.stream("weak-literal comptime bodies in typed contexts: comptime copy = run-time copy (= value at the context's type)",
+              ncase, 0, None)
+    v.coverage["weak_literal_cases"] = ncase
+    v.coverage["weak_literal_contexts"] = hist
+    return ncase
+
+
 def run(tier, seed):
     fl = Flow("C04", tier, seed, "proof")
     v = fl.v
@@ -1013,6 +1183,8 @@ def run(tier, seed):
         nmark = run_markers(fl, capy, 6 if quick else 30)
         nprog, per = (40, 12) if quick else (400, 12)
         ncase = run_e2e(fl, capy, drv, nprog, per)
+        nwl = run_weak_literals(fl, capy, 12 if quick else 100, 14)
+        v.coverage["evaluations"] += nwl
         v.coverage["evaluations"] += nprobe + nmark
         v.coverage["probe_programs"] = nprobe
         v.coverage["marker_checks"] = nmark
@@ -1028,7 +1200,11 @@ def run(tier, seed):
             "one of {const global, helper call, loop, if-expression, nested comptime, cast} or has an aggregate type. "
             "probes: %d fixed witness programs (known classes, must-reject, must-work). markers: each of 8 marker blocks "
             "per program must appear exactly once in the compiler output and never in the program output. "
-            "model: scalar cases replayed through the extracted model; f32<->f64 model vs host conversions."
+            "model: scalar cases replayed through the extracted model; f32<->f64 model vs host conversions. "
+            "weak literals: comptime blocks made only of untyped literals (negatives, values beyond 2^31 / 2^32, floats not "
+            "representable in f32, arithmetic on literals) in 14 expected-type contexts (plain, ?T, E!T, struct field, ?T field, "
+            "array element, argument, ?T argument, return, ?T / E!T return, enum payload, assignment, ?T assignment) x every "
+            "numeric type, printed next to the same block at run time; integers are also compared with the value at the context's type."
             % (nprog, per, nprobe))
     v.assumptions = [
         "what the JIT-compiled body computes is not modelled: the model starts from the value the body yields (the "
